@@ -231,7 +231,16 @@ def translate():
     except Exception:
         rep['copy'] = {'error': out12[-500:]}
         rep['untranslatable'].append({'name': 'make_*_copy', 'group': 'Copy', 'why': out12[-500:]})
-    return rep, out + out2 + out3 + out4 + out5 + out6 + out7 + out8 + out9 + out10 + out11 + out12
+    # the reader / writer of the array primitive as an IO scheme (Gen_ArrayIO.v)
+    rc13, out13 = sh([sys.executable, os.path.join(VERIF, 'tools', 'cxx_arrayio.py'), REPO, os.path.join(COQ, 'gen', 'Gen_ArrayIO.v')], timeout=300)
+    try:
+        rep['arrayio'] = json.loads(out13.strip().split('\n')[-1])
+        for pr in rep['arrayio']['problems']:
+            rep['untranslatable'].append({'name': 'array::read_binary / write_binary', 'group': 'ArrayIO', 'why': pr})
+    except Exception:
+        rep['arrayio'] = {'error': out13[-500:]}
+        rep['untranslatable'].append({'name': 'array::read_binary / write_binary', 'group': 'ArrayIO', 'why': out13[-500:]})
+    return rep, out + out2 + out3 + out4 + out5 + out6 + out7 + out8 + out9 + out10 + out11 + out12 + out13
 
 
 def coq_makefile():
